@@ -3,6 +3,7 @@ package c16
 import (
 	"sync"
 	"testing"
+	"time"
 
 	"verifharness/recsim"
 	"verifharness/vkit"
@@ -56,5 +57,48 @@ func TestVerif_General(t *testing.T) {
 	r := vkit.Start(t, "C16", "general", "exploration", rule)
 	r.Require("operation_attempts", "failed_attempts", "retry_waits_checked")
 	run(t, r, vkit.N(3000, 60000), false)
+	r.Finish()
+}
+
+// Long failure streaks with large backoffs (the exponent grows with every consecutive failure): one object whose Update fails 25-45 times
+// in a row under minimum backoffs of 100 ms, 10 s or 1 h and maxima of 1 h or 24 h (virtual time), then succeeds.
+func TestVerif_Streak(t *testing.T) {
+	r := vkit.Start(t, "C16", "streak", "exploration", rule+" (variant: a single object failing 25-45 times in a row, minimum backoff 100 ms / 10 s / 1 h, maximum 1 h / 24 h)")
+	r.Require("operation_attempts", "retry_waits_checked")
+	n := vkit.N(60, 1500)
+	var wg sync.WaitGroup
+	next := make(chan int)
+	one := func(i int) {
+		rng := r.Rand(i, 99)
+		cfg := recsim.RandomConfig(rng, true)
+		cfg.Phases, cfg.Keys = 0, 1
+		cfg.Streak = 25 + rng.IntN(21)
+		cfg.BackoffMin = []time.Duration{100 * time.Millisecond, 10 * time.Second, time.Hour}[rng.IntN(3)]
+		cfg.BackoffMax = []time.Duration{time.Hour, 24 * time.Hour}[rng.IntN(2)]
+		cfg.Report = map[string]bool{"pacing": true}
+		r.LogCase(i)
+		recsim.Run(t, r, i, cfg)
+	}
+	if part, idx, ok := vkit.ReplayCase(); ok {
+		if part == r.Part {
+			one(idx)
+		}
+		r.Finish()
+		return
+	}
+	for w := 0; w < vkit.Workers(); w++ {
+		wg.Add(1)
+		go func() {
+			defer wg.Done()
+			for i := range next {
+				one(i)
+			}
+		}()
+	}
+	for i := 0; i < n; i++ {
+		next <- i
+	}
+	close(next)
+	wg.Wait()
 	r.Finish()
 }
